@@ -181,9 +181,21 @@ def worker_main(args):
     except HarnessError:
         status = 'harness_error'
         err = traceback.format_exc()
-    except Exception:  # noqa: BLE001
-        status = 'harness_error'
+    except Exception as exc:  # noqa: BLE001
         err = traceback.format_exc()
+        # an exception raised INSIDE beanquery that a check did not guard is an observation about the engine (the
+        # workload reached a statement on which the engine blew up), not a bug of the harness: report it as a
+        # violation with the traceback; the rest of this shard's workload is lost, which the evidence records
+        tb = traceback.extract_tb(exc.__traceback__)
+        inner = tb[-1].filename if tb else ''
+        in_engine = any(('/beanquery/' in f.filename and '/bqverif/' not in f.filename) for f in tb[-3:])
+        if in_engine and '/bqverif/' not in inner:
+            ctx.violation(f'{prop.lower()}.unguarded_engine_exception.{type(exc).__name__}',
+                          f'the engine raised {type(exc).__name__}: {exc} where the check expected a result', {'traceback': err[-1500:]})
+            ctx.notes.append('shard aborted by an unguarded engine exception')
+            err = None
+        else:
+            status = 'harness_error'
     data = ctx.dump()
     data['status'] = status
     data['error'] = err
